@@ -102,13 +102,18 @@ def c07(ctx, replay):
         ctx.add_rejections(heap)
         return
     ignored = {}
+    if ctx.tier == "quick":
+        # every family's own check judges all of its TLC-enumerated stimuli; here they are re-run only for the heap
+        # counters, so large stimulus sets are thinned to an evenly spaced 2000 executions (thorough: everything)
+        ctx.light = 2000
+        ctx.notes.append("quick tier: stimulus files with more than 2000 executions are thinned to ~2000 evenly spaced ones")
 
     def one(src):
         label, fn = src
         c = ctx.child(label)
         rej, heap = fn(c)
         return label, c, rej, heap
-    with cf.ThreadPoolExecutor(max_workers=4) as ex:
+    with cf.ThreadPoolExecutor(max_workers=7) as ex:
         results = list(ex.map(one, SOURCES))
     for label, c, rej, heap in results:
         ctx.merge(c)
